@@ -942,14 +942,20 @@ def run_c15(ctx, plan):
 # the concurrent cache under several threads (modes S and F)
 
 CONC_PROGS = {"ii": 2, "ii2": 2, "ixi": 2, "upd": 2, "rej": 2, "syncs": 2, "ia": 2, "wgt": 2, "xget": 2,
-              "ttl": 2, "tti": 2, "three": 3, "three2": 3, "burst": 2, "ttix": 2, "grow": 2, "iax": 2, "farw": 2, "farx": 2, "iasy": 2, "xaxa": 2, "putback": 2, "syncflag": 2,
+              "ttl": 2, "tti": 2, "three": 3, "three2": 3, "burst": 2, "ttix": 2, "grow": 2, "iax": 2, "farw": 2, "farx": 2, "iasy": 2, "xaxa": 2, "putback": 2, "syncflag": 2, "deadrm": 2, "ttihk": 2, "ttlhk": 2,
               "all_unit": 2, "all_wgt": 2, "all_exp": 2}
-CONC_QUICK = ["ii", "upd", "rej", "ixi", "wgt", "xget", "burst", "ttix", "grow", "iax", "farx", "iasy", "xaxa", "putback"]
-CONC_LIGHT = ["ii", "rej", "syncs", "grow"]
+CONC_QUICK = ["ii", "upd", "rej", "ixi", "wgt", "xget", "burst", "ttix", "grow", "iax", "farx", "iasy", "xaxa", "putback", "deadrm"]
+CONC_LIGHT = ["ii", "rej", "syncs", "grow", "ixi", "deadrm"]
+# programs with an explicit sync() beside another thread's maintenance, replayed once more on a
+# harness built with the library's debug assertions off
+CONC_NODEBUG = ["syncs", "rej", "grow"]
 # programs replayed once more with scaled queues (flush point, read slots, write slots): small programs
 # then reach a full queue, the writers' retry loop and maintenance triggered by the flush point
 SCALED = (2, 3, 2)
 CONC_SCALED = ["burst", "ii2", "three2", "syncflag"]
+# C05 / C06 under interleavings: the programs with expiry, and two that need scaled queues
+CONC_EXP = ["ttl", "tti", "ttix", "farx"]
+CONC_EXP_SCALED = ["ttihk", "ttlhk"]
 FINE_PROGS = ["putback", "rej", "upd", "wgt", "farx"]
 # "all" slices: the share of the programs whose schedules are emitted and replayed (1 / m), quick / thorough
 ALL_PICK = {"all_unit": (24, 8), "all_wgt": (60, 20), "all_exp": (60, 20)}
@@ -1019,11 +1025,11 @@ def stage_conc_mc(ctx, progs):
             ctx.model_failures.append((name, r["violated"] or r["error"], r["out"]))
 
 
-def stage_conc_s(ctx, progs, max_per_prog, random_runs, scaled=False):
+def stage_conc_s(ctx, progs, max_per_prog, random_runs, scaled=False, pre=None):
     """TLC's interleavings forced on real threads; then seeded random schedules."""
     import random
     rnd = random.Random(ctx.seed)
-    pre = "cq_" if scaled else "cs_"
+    pre = pre or ("cq_" if scaled else "cs_")
     for prog in progs:
         name = pre + prog
         cfg = os.path.join(ctx.wd, name + ".cfg")
@@ -1044,9 +1050,30 @@ def stage_conc_s(ctx, progs, max_per_prog, random_runs, scaled=False):
         with open(beh_all) as f:
             lines = f.readlines()
         if max_per_prog and len(lines) > max_per_prog:
-            # longest schedules first (they determine most of the run), then a seeded sample
-            lines.sort(key=lambda l: -len(l))
-            keep = lines[:max_per_prog // 2] + rnd.sample(lines[max_per_prog // 2:], max_per_prog - max_per_prog // 2)
+            # first the schedules that end with a foreground map access made while another thread is
+            # inside handle_upsert (m.w2 / m.w3: between its accesses to the map), then those made
+            # while another thread is anywhere inside maintenance; then the longest schedules (they
+            # determine most of the run); then a seeded sample of the rest
+            def window(l):
+                b = json.loads(l)
+                if b.get("tag") not in ("ins.map", "inv.map", "invall", "get.map") or not b.get("sched"):
+                    return 0
+                others = [pc for u, pc in enumerate(b["last"]["pcs"]) if u + 1 != b["sched"][-1]]
+                if any(pc in ("m.w2", "m.w3") for pc in others):
+                    return 2
+                return 1 if any(pc.startswith("m.") for pc in others) else 0
+            w2 = [l for l in lines if window(l) == 2]
+            w1 = [l for l in lines if window(l) == 1]
+            rnd.shuffle(w2)
+            rnd.shuffle(w1)
+            keep = w2[:max_per_prog // 3]
+            keep += w1[:max_per_prog // 2 - len(keep)]
+            kept = set(keep)
+            rest = [l for l in lines if l not in kept]
+            rest.sort(key=lambda l: -len(l))
+            nlong = (max_per_prog - len(keep)) // 2
+            keep += rest[:nlong]
+            keep += rnd.sample(rest[nlong:], min(len(rest) - nlong, max_per_prog - len(keep)))
         else:
             keep = lines
         if scaled:
@@ -1252,6 +1279,18 @@ def run_conc_property(ctx):
                       ("sync-burst", 100 * k, 3), ("sync-flush", 14, 0)])
 
 
+def stage_conc_exp(ctx):
+    """C05 / C06 beside other threads: the monitors Allowed_C05c / Allowed_C06c (SyncConc.tla) on every
+    interleaving of the programs with expiry (TLC), on every edge replayed on real threads, and on
+    seeded random schedules."""
+    quick = ctx.tier == "quick"
+    stage_conc_mc(ctx, CONC_EXP + CONC_EXP_SCALED + ([] if quick else ["all_exp"]))
+    stage_conc_s(ctx, CONC_EXP, 200 if quick else 0, 100 if quick else 3000)
+    stage_conc_s(ctx, CONC_EXP_SCALED, 400 if quick else 0, 100 if quick else 3000, scaled=True)
+    if not quick:
+        stage_conc_s(ctx, ["all_exp"], 20000, 0)
+
+
 def stage_conc_light(ctx):
     """The concurrent clauses of the sequential properties: after every explored multi-threaded
     phase has quiesced the property must hold (counters, bound, refill, live objects)."""
@@ -1259,6 +1298,16 @@ def stage_conc_light(ctx):
     stage_conc_s(ctx, CONC_LIGHT if quick else [p for p in CONC_PROGS if not p.startswith("all_")],
                  150 if quick else 0, 100 if quick else 3000)
     stage_conc_s(ctx, ["all_wgt"], 300 if quick else 10000, 0)
+    if ctx.prop in ("C03", "C04", "C10", "C11"):
+        # the library as release users run it: with its debug assertions on, a counter that is about
+        # to drift is turned into a panic (C08's business) before the drift can be observed
+        V.build_harness_nodebug()
+        V.CURRENT_BIN[0] = V.NODEBUG_BIN
+        try:
+            stage_conc_s(ctx, CONC_NODEBUG, 150 if quick else 0, 60 if quick else 1000, pre="cn_")
+            stage_conc_s(ctx, ["syncflag"], 150 if quick else 0, 0, scaled=True, pre="cnq_")
+        finally:
+            V.CURRENT_BIN[0] = V.HBIN
     if ctx.prop == "C04":
         stage_burst(ctx, 5000 if quick else 50000)
 
@@ -1364,8 +1413,13 @@ def run_property(prop, tier, seed):
         stage_deque(ctx)
     if prop in ("C03", "C04", "C08", "C10", "C11"):
         stage_conc_light(ctx)
+    if prop in ("C05", "C06"):
+        stage_conc_exp(ctx)
     if prop == "C16":
         stage_iter(ctx)
+        # the final iteration of scheduled runs: nothing that is unambiguously the last write of its
+        # key may be missing (Allowed_C03c), no key twice
+        stage_conc_s(ctx, ["deadrm", "iax", "ixi"], 150 if tier == "quick" else 0, 60 if tier == "quick" else 1000)
     if prop == "C08" and tier == "thorough":
         stage_asan(ctx)
     stage_findings(ctx)
